@@ -1,5 +1,7 @@
 import PMV.Gen.Tvl
+import PMV.Gen.TvlRed
 import PMV.Model.Logic3
+import PMV.Props.C14
 /-
   C14, translator tie (T2): the per-element functions REGENERATED from /repo's source
   (PMV/Gen/Tvl.lean, written by harness/c14_py2lean.py on every run) satisfy the documented truth
@@ -9,7 +11,6 @@ import PMV.Model.Logic3
 -/
 namespace PMV.Logic3
 
-def t3of (p : Bool × Bool) : T3 := Cell.t3 ⟨p.1, p.2⟩
 
 theorem gen_tvl_and_table : ∀ sf af sv sm av am : Bool,
     (sf = true → sm = false) → (af = true → am = false) →
@@ -50,5 +51,37 @@ theorem gen_agrees_with_model_or : ∀ sf af sv sm av am : Bool,
     (sf = true → sm = false) → (af = true → am = false) →
     t3of (Gen.Tvl.tvl_or sf af sv sm av am) = (tvlOrCode sf af ⟨sv, sm⟩ ⟨av, am⟩).t3 := by
   decide
+
+
+/-! #### lane reductions regenerated from the source (PMV/Gen/TvlRed.lean): each is the documented
+reduction of its lane, for every lane length — the generated `*_fold` obligations (base and one-step
+equations closed by `decide`, lifted by `PMV.Logic3.fold2`) restated against the specifications. -/
+
+theorem gen_tvl_any_array (xs : List (Bool × Bool)) :
+    t3of (Gen.Red.tvl_any_arr xs) = kany (xs.map pairT3) := Gen.Red.tvl_any_arr_fold xs
+
+theorem gen_tvl_all_array (xs : List (Bool × Bool)) :
+    t3of (Gen.Red.tvl_all_arr xs) = kall (xs.map pairT3) := Gen.Red.tvl_all_arr_fold xs
+
+/-- scalar-mask branch: every element of the lane carries the mask bit `b` -/
+theorem gen_tvl_any_scalar (b : Bool) (xs : List (Bool × Bool)) (h : ∀ c ∈ xs, (c.2 == b) = true) :
+    t3of (Gen.Red.tvl_any_sca b xs) = kany (xs.map pairT3) := Gen.Red.tvl_any_sca_fold b xs h
+
+theorem gen_tvl_all_scalar (b : Bool) (xs : List (Bool × Bool)) (h : ∀ c ∈ xs, (c.2 == b) = true) :
+    t3of (Gen.Red.tvl_all_sca b xs) = kall (xs.map pairT3) := Gen.Red.tvl_all_sca_fold b xs h
+
+theorem gen_any_array (xs : List (Bool × Bool)) :
+    t3of (Gen.Red.any_arr xs) = ignAny (xs.map pairT3) := by
+  rw [ignAny_fold]; exact Gen.Red.any_arr_fold xs
+
+theorem gen_all_array (xs : List (Bool × Bool)) :
+    t3of (Gen.Red.all_arr xs) = ignAll (xs.map pairT3) := by
+  rw [ignAll_fold]; exact Gen.Red.all_arr_fold xs
+
+/-- the regenerated lane functions agree observably with the hand-written model the driver runs -/
+theorem gen_agrees_with_model_tvl_any (xs : List Cell) :
+    t3of (Gen.Red.tvl_any_arr (xs.map fun c => (c.v, c.m))) = (tvlAnyCode .array xs).t3 := by
+  rw [gen_tvl_any_array, tvl_any_array]
+  simp [pairT3, List.map_map, Function.comp_def]
 
 end PMV.Logic3
